@@ -75,7 +75,7 @@ def run(ctx):
             if repo == "none" and state != "clean":
                 continue
             for kind in ("content", "move"):
-                for inv in ("rel-root", "abs", "rel-sub"):
+                for inv in ("rel-root", "abs", "rel-sub", "two-abs-other-repo"):
                     for v in variants:
                         scen.append((repo, state, kind, inv, v))
     with core.Scratch("verif-c14") as tmp:
@@ -89,10 +89,19 @@ def run(ctx):
                 cwd, arg = w, "."
             elif inv == "abs":
                 cwd, arg = tmp, w
-            else:
+            elif inv == "rel-sub":
                 cwd, arg = os.path.join(w, tdir), "."
+            else:
+                # several path arguments, started from inside ANOTHER (clean) git repository
+                cwd = os.path.join(tmp, "s%d" % k, "elsewhere")
+                os.makedirs(cwd)
+                open(os.path.join(cwd, "README"), "w").write("x\n")
+                sh(GIT + ["init", "-q", "."], cwd)
+                sh(GIT + ["add", "-A"], cwd)
+                sh(GIT + ["commit", "-q", "-m", "init"], cwd)
+                arg = [os.path.join(w, "p"), os.path.join(w, "q")]
             before = snapshot(w)
-            p = subprocess.run([regal, "fix", arg], cwd=cwd, stdout=subprocess.PIPE, stderr=subprocess.STDOUT, text=True,
+            p = subprocess.run([regal, "fix"] + (arg if isinstance(arg, list) else [arg]), cwd=cwd, stdout=subprocess.PIPE, stderr=subprocess.STDOUT, text=True,
                                timeout=120, env=dict(os.environ, NO_COLOR="1"))
             after = snapshot(w)
             return k, (repo, state, kind, inv, v), w, target_rel, repo_root, cwd, arg, p.returncode, p.stdout[-600:], before, after
@@ -118,9 +127,12 @@ def run(ctx):
         if scope in ("", "p"):
             modified.append(os.path.join(w, "p", "other.rego"))
         git_dirs = [repo_root] if repo_root else []
-        arg_abs = os.path.normpath(os.path.join(cwd, arg))
+        if isinstance(arg, list):
+            arg_abs, nomodel = arg[0], True
+        else:
+            arg_abs, nomodel = os.path.normpath(os.path.join(cwd, arg)), False
         mcases.append({"id": k, "op": "c14.guard", "gitDirs": git_dirs, "argDir": arg_abs,
-                       "walkStop": "" if os.path.isabs(arg) else cwd,
+                       "walkStop": "" if (isinstance(arg, list) or os.path.isabs(arg)) else cwd, "_nomodel": nomodel,
                        "status": [tgt_abs] if dirty else [], "modified": modified, "deleted": deleted,
                        "_sc": sc, "_rc": rc, "_out": out, "_before": before, "_after": after, "_target": target_rel})
     model = ctx.model(mcases)
@@ -142,6 +154,8 @@ def run(ctx):
                      {"target": c["_target"], "before": tb, "after": ta})
         if c["_rc"] != 0 and changed:
             ctx.fail("fix refused (non-zero exit) but the tree changed", desc, None, None)
+        if c["_nomodel"]:
+            continue        # several arguments: only the property predicate above (the guard model takes one argument)
         # --- correspondence with the guard model
         want_write = mo.get("outcome") == "write"
         nested_out_of_repo = False
